@@ -191,6 +191,17 @@ func runViews() {
 	rng(fmt.Sprintf("views: %d source kinds x all %d sizes, six-operation sub-menu {crop(1,1,w-2,h-2), crop(0,0,w-1,h), invert, rotate, crop(1,0,w-1,h), crop(0,1,w,h-1)}, all histories of length <= %d", len(kinds), len(all)/len(kinds), d3), len(all),
 		func(i int) string { return fmt.Sprint(all[i]) },
 		func(l *mc.Local, i int) { search(l, all[i].kind, all[i].w, all[i].h, d3, false) })
+	var tiny []size
+	nt := chk.Pick(5, 7)
+	for w := 1; w <= nt; w++ {
+		for h := 1; h <= nt; h++ {
+			tiny = append(tiny, size{w, h})
+		}
+	}
+	tr := roots(tiny)
+	rng(fmt.Sprintf("views: argument product of Crop: %d source kinds x sizes 1..%d x 1..%d x 7 prefixes (fresh, rotate, invert, two crops, two rotations, crop+rotate) x EVERY (left,top,width,height) with left in -1..w, top in -1..h, width in -1..w+2, height in -1..h+2", len(kinds), nt, nt), len(tr),
+		func(i int) string { return fmt.Sprint(tr[i]) },
+		func(l *mc.Local, i int) { allCrops(l, tr[i].kind, tr[i].w, tr[i].h) })
 	chk.Sample("view history", vcase{"view", "RGBints", 5, 4, []string{"crop(1,0,4,4)", "invert", "crop(1,0,4,4)"}})
 	chk.Sample("view history", vcase{"view", "Gray", 41, 47, []string{"crop(1,1,39,45)", "rotate", "crop(0,1,45,38)", "invert"}})
 }
